@@ -280,9 +280,13 @@ func Main(t *testing.T, w World) {
 		}
 		c := CaseFor(w, *fSeed, i, prop, *fTier)
 		keep := *fDump || len(rep.Samples) < 2
+		if simrt.RaceBuild {
+			// race reports go to stderr as they are detected: this marker attributes them to a case
+			fmt.Fprintf(os.Stderr, "SIM-CASE index=%d seed=%d\n", i, c.Seed)
+		}
 		res := w.Run(t, c, prop, keep)
 		rep.Runs++
-		if rep.Runs <= *fDet {
+		if rep.Runs <= *fDet && !simrt.RaceBuild {
 			res2 := w.Run(t, c, prop, false)
 			if res2.TraceHash != res.TraceHash {
 				rep.DetMismatch = append(rep.DetMismatch, fmt.Sprintf("case %d seed %d: %016x vs %016x", i, c.Seed, res.TraceHash, res2.TraceHash))
